@@ -60,6 +60,7 @@ def run(ck, F, E):
     token_length_rule(ck, F)
     answers_sent(ck, F, ml)
     table_keyed_by_whole_uri(ck, F)
+    every_notification_analysed(ck, F, ml)
 
 
 def converter_predicate(ck, F):
@@ -259,6 +260,35 @@ def answers_sent(ck, F, ml):
                    "%s no longer sends the notification it builds (on every path): diagnostics are computed but never reach the client" % p,
                    b.span)
     ck.floor("C20.send_notification bodies", n, 1)
+
+
+def every_notification_analysed(ck, F, ml):
+    """"answers each with diagnostics for the latest text": whether an open / change notification is analysed depends on nothing
+    but its being one (the cast matched, it carries a change): no further condition -- a version filter, a table lookup -- may
+    decide to skip it."""
+    from lib import controlling_switches
+    ALLOWED = {"cast_notification", "cast_request", "next", "last", "branch", "handle_shutdown", "into_iter", "pop", "next_back",
+               "iter", "recv", "deref", "as_ref"}
+    bad = []
+    n = 0
+    for (hb, c) in analysis_sites(F):
+        sites = [(hb, c.bb)]
+        if not hb.path.endswith("::main_loop"):
+            sites += [(cb, cc.bb) for cb in F.bodies.values() if cb.crate == "abasic_lsp" for cc in cb.calls() if cc.callee == hb.path]
+        for (b, bb) in sites:
+            for (sb, subj, names) in controlling_switches(b, bb):
+                n += 1
+                cn = {x[1].split("::")[-1] for x in expr_calls(subj)}
+                e = strip_expr(subj)
+                if e[0] == "discr":
+                    e = strip_expr(e[1])
+                cmp_ = e[0] == "binop" and e[1] in ("Lt", "Le", "Gt", "Ge", "Eq", "Ne")
+                if (cn - ALLOWED) or cmp_:
+                    bad.append(show(subj)[:80])
+    ck.require(n > 0 and not bad, "C20:ANSWER:every-notification-is-analysed", "stays alive",
+               "the analysis of an opened / changed text is conditioned only on the notification's kind and on its carrying a change",
+               "whether main_loop analyses an open / change notification also depends on %s: some notifications are dropped without "
+               "diagnostics for the latest text" % "; ".join(sorted(set(bad))), ml.span)
 
 
 def table_keyed_by_whole_uri(ck, F):
@@ -565,6 +595,10 @@ def unfiltered(ck, F, ml):
         ok = has("SourceFileAnalyzer::messages") and has("SourceFileMap::map_to_source") and (loop_form or chain_form)
         skips = [c.callee.split("::")[-1] for c in allc if c.callee.split("::")[-1] in
                  ("filter", "skip", "take", "step_by", "take_while", "skip_while", "dedup", "truncate", "retain")]
+        # collecting the diagnostics through a keyed container collapses messages that share a key (two messages on one range)
+        skips += ["%s on a map/set" % c.callee.split("::")[-1] for c in allc
+                  if c.callee.split("::")[-1] in ("insert", "entry", "extend", "from_iter", "collect") and
+                  any(k in c.callee + " ".join(c.gargs) for k in ("BTreeMap", "HashMap", "BTreeSet", "HashSet"))]
         ck.require(ok and not skips, "C20:DIAG:all-messages", "nothing filtered",
                    "analyze_source_file loops over messages() and pushes one Diagnostic per mapped message",
                    "analyze_source_file filters or truncates the analyzer's messages (%s)" % skips, az.span)
